@@ -914,10 +914,12 @@ def run(ctx):
     shutil.rmtree(TMP, ignore_errors=True)
     scs = corpus_cases('sto')
     ctx.count('corpus', len(scs))
-    scs += [gen_scenario(ctx.rng) for _ in range(ctx.n(80, 900))]
+    scs += [gen_scenario(ctx.rng) for _ in range(ctx.n(70, 800))]
     for lo in range(0, len(scs), 220):
         check_scenarios(ctx, scs[lo:lo + 220])
-    check_csv(ctx, ctx.n(28, 300))
+    ctx.cov['t_store_stream_s'] = round(ctx.elapsed(), 1)
+    check_csv(ctx, ctx.n(24, 260))
+    ctx.cov['t_with_csv_stream_s'] = round(ctx.elapsed(), 1)
     shutil.rmtree(TMP, ignore_errors=True)
     ctx.cov['source_hashes'] = {
         'DAE.store': C.hash_source(C.REPO + '/andes/variables/dae.py', 'DAE.store'),
